@@ -1028,11 +1028,15 @@ pub fn generate_c07(rng: &mut Rng, forced_template: Option<&'static str>) -> Sce
         }
         expected_codes = vec!["E001".into()];
     }
-    let output_dir = if rng.chance(1, 2) {
-        world.entries.push(Entry { path: "out".into(), kind: EntryKind::Dir, mode: None });
-        Some("out".to_owned())
-    } else {
-        None
+    let output_dir = match rng.below(6) {
+        0..=2 => None,
+        // an output directory that does not exist (yet): writing into it fails, and a run that must not generate
+        // must not create it either
+        3 => Some(if rng.chance(1, 2) { "fresh".to_owned() } else { "fresh/nested/out".to_owned() }),
+        _ => {
+            world.entries.push(Entry { path: "out".into(), kind: EntryKind::Dir, mode: None });
+            Some("out".to_owned())
+        }
     };
     let n_gens = rng.usize_below(4);
     let mut metas = Vec::new();
@@ -1167,6 +1171,17 @@ pub fn judge_c07(s: &Scenario, r: &RunResult) -> Judged {
     }
     if write_opens > 0 && (meta.dry_run || !compile_errors.is_empty()) {
         vio.push(v("files-written-without-generation", format!("{write_opens} file(s) were opened for writing")));
+    }
+    if meta.dry_run || !compile_errors.is_empty() {
+        // nothing at all may appear in the world on such a run - not even a directory
+        let appeared: Vec<&String> = r.after.keys().filter(|p| !r.before.contains_key(*p)).collect();
+        let made: Vec<String> = r.trace.iter().filter_map(|e| match &e.kind {
+            Ev::Fs { op, path, result, .. } if (op == "mkdir" || op == "rename" || op == "symlink" || op == "link") && *result >= 0 => Some(format!("{op} {path}")),
+            _ => None,
+        }).collect();
+        if !appeared.is_empty() || !made.is_empty() {
+            vio.push(v("file-system-touched-without-generation", format!("appeared: {appeared:?}; operations: {made:?}")));
+        }
     }
     match meta.class.as_str() {
         "clean" | "warn" => {
